@@ -17,11 +17,21 @@ import (
 // CRLF line break is enforced.
 // Line break are inserted if a line is longer than 1000 characters (including CRLF).
 func StringToBody(str, encoding string) ([]byte, error) {
-	in := bufio.NewScanner(bytes.NewBufferString(str))
-	in.Buffer(nil, len(str)+1) // A line can be as long as the whole body (the default limit is 64 KiB).
+	// Translate first: the line length limit applies to the encoded bytes, and a
+	// multi-byte UTF-8 character must not be cut in two before it is translated.
+	translator, err := charset.TranslatorTo(encoding)
+	if err != nil {
+		return []byte(str), err
+	}
+	_, translated, err := translator.Translate([]byte(str), true)
+	if err != nil {
+		return translated, err
+	}
+
+	in := bufio.NewScanner(bytes.NewReader(translated))
+	in.Buffer(nil, len(translated)+1) // A line can be as long as the whole body (the default limit is 64 KiB).
 	out := new(bytes.Buffer)
 
-	var err error
 	var line []byte
 	for in.Scan() {
 		line = in.Bytes()
@@ -42,13 +52,7 @@ func StringToBody(str, encoding string) ([]byte, error) {
 		return nil, err
 	}
 
-	translator, err := charset.TranslatorTo(encoding)
-	if err != nil {
-		return out.Bytes(), err
-	}
-
-	_, translated, err := translator.Translate(out.Bytes(), true)
-	return translated, err
+	return out.Bytes(), nil
 }
 
 func min(a, b int) int {
